@@ -534,6 +534,7 @@ type tbCase struct {
 	c10rt.Case
 	Invalid bool `json:"invalid"`
 	Narrows bool `json:"narrows"`
+	Dropped bool `json:"dropped"` // a required metadata key was removed on the way
 }
 
 type tbDesign struct {
@@ -626,6 +627,18 @@ func emitDesign(root string, td *tbDesign, r *vh.RNG, casesPerMethod int) (err e
 			gr := &valGen{r: r, mode: map[int]int{0: 0, 1: 0, 2: 2}[mode], budget: 40}
 			rv := gr.value(tm.RVT, true)
 			tm.Cases = append(tm.Cases, tbCase{Case: c10rt.Case{ID: c, Payload: pv, Result: rv}, Invalid: gp.invalid, Narrows: gp.narrows || gr.narrows})
+		}
+		// a valid request from which each required metadata key is removed in turn
+		if pf, isObj, _ := o.ioFields(m.Payload); isObj {
+			for _, n := range m.Metadata {
+				for _, f := range pf {
+					if f.Name == n && f.Req {
+						gp := &valGen{r: r, mode: 0, budget: 40}
+						gr := &valGen{r: r, mode: 0, budget: 40}
+						tm.Cases = append(tm.Cases, tbCase{Case: c10rt.Case{ID: len(tm.Cases), Payload: gp.value(tm.PVT, true), Result: gr.value(tm.RVT, true), DropMD: n}, Dropped: true})
+					}
+				}
+			}
 		}
 		var cs []c10rt.Case
 		for _, c := range tm.Cases {
@@ -751,6 +764,20 @@ func tierB(r *run, rng *vh.RNG, out, repo string) {
 		// tree: recorded finding; used to try proposed_fixes/C10-grpc-response-metadata.diff)
 		add(RandomTB(rng, os.Getenv("C10_TB_RESPMD") != ""), false)
 	}
+	// fixed designs: every primitive kind as required / optional request metadata
+	{
+		var fs []Fld
+		var names []string
+		for i, p := range metaPrims {
+			n := fmt.Sprintf("md_%c%c", 'a'+byte(i), 'x')
+			f := F(i+1, n, P(p))
+			f.Req = i%3 != 2
+			fs = append(fs, f)
+			names = append(names, n)
+		}
+		fs = append(fs, F(40, "body", P("String")))
+		add(one("tb-cover:required-metadata", Meth{Payload: &IO{Fields: fs}, Metadata: names, Result: &IO{Fields: []Fld{F(1, "ok", P("Boolean"))}}}), false)
+	}
 	for _, w := range tbWitnesses() {
 		r.res.Count("tierB:witness-designs")
 		add(w.D, true)
@@ -847,6 +874,13 @@ func tierB(r *run, rng *vh.RNG, out, repo string) {
 		switch {
 		case o.Stage == "panic":
 			r.res.Fail("tierB-conversion-panic", "generated conversion code panicked: "+o.Err, in)
+		case tc.Dropped:
+			r.res.Count("tierB:required-metadata-dropped-cases")
+			if o.Called {
+				r.res.Fail("request-without-required-metadata-reached-endpoint", "required metadata attribute "+tc.DropMD+" was not sent, the endpoint ran all the same and received "+clip(o.PayloadGot), in)
+			} else if o.Stage != "handler" {
+				r.res.Fail("request-without-required-metadata-not-rejected", "stage "+o.Stage+" "+o.Err, in)
+			}
 		case tc.Narrows:
 			r.res.Count("tierB:narrowing-cases")
 			if o.Stage != "done" || o.PayloadGot != o.PayloadIn || o.ResultGot != o.ResultIn {
@@ -880,7 +914,7 @@ func tierB(r *run, rng *vh.RNG, out, repo string) {
 		// (a narrowed map key may collide with another key; which entry survives depends on
 		// Go's map iteration order, so those cases are left to the direct oracle)
 		keyNarrows := tc.Narrows && (strings.Contains(tm.PVT.coq()+tm.RVT.coq(), "(VMap (VPrim PInt)") || strings.Contains(tm.PVT.coq()+tm.RVT.coq(), "(VMap (VPrim PUInt)"))
-		if !tm.Mapped && !tc.Invalid && !keyNarrows && o.Stage == "done" {
+		if !tm.Mapped && !tc.Invalid && !tc.Dropped && !keyNarrows && o.Stage == "done" {
 			i := r.newCase(caseInfo{Stream: "values", Design: td.D})
 			values = append(values, fmt.Sprintf("(%d, %s, %s, %s, %s)", i, tm.PVT.coq(), o.PayloadIn, o.ReqMsg, o.PayloadGot))
 			i = r.newCase(caseInfo{Stream: "values", Design: td.D})
